@@ -142,13 +142,27 @@ func hexList(es []*ent) string {
 // runAftersun runs the unmodified partial-aftersun binary on one log or mirror directory and
 // classifies how it ended.
 func runAftersun(bin, scratch, flavour, dir string) (status string, output string) {
+	if flavour == "log" {
+		return runAftersunConfig(bin, scratch, []string{dir}, "")
+	}
+	// dir is the witness directory (containing mirror/<origin hash>/)
+	return runAftersunConfig(bin, scratch, nil, dir)
+}
+
+// runAftersunConfig runs the binary ONCE with a config that lists the given log directories (in
+// this order) and, if witnessDir != "", the witness directory, the way main reads them:
+// c.Logs[].{ShortName,LocalDirectory} and c.Witness.LocalDirectory.
+func runAftersunConfig(bin, scratch string, logDirs []string, witnessDir string) (status string, output string) {
 	cfg := filepath.Join(scratch, fmt.Sprintf("aftersun-%d.yaml", time.Now().UnixNano()))
 	var y string
-	if flavour == "log" {
-		y = fmt.Sprintf("logs:\n  - shortname: verif\n    localdirectory: %q\n", dir)
-	} else {
-		// dir is the witness directory (containing mirror/<origin hash>/)
-		y = fmt.Sprintf("witness:\n  localdirectory: %q\n", dir)
+	if len(logDirs) > 0 {
+		y = "logs:\n"
+		for i, d := range logDirs {
+			y += fmt.Sprintf("  - shortname: verif%d\n    localdirectory: %q\n", i, d)
+		}
+	}
+	if witnessDir != "" {
+		y += fmt.Sprintf("witness:\n  localdirectory: %q\n", witnessDir)
 	}
 	if err := os.WriteFile(cfg, []byte(y), 0o644); err != nil {
 		return "harness:" + err.Error(), ""
